@@ -15,6 +15,11 @@ theorem facts :
     nilMemberGuard = true ∧ badFromIsError = true ∧ sniffUnbounded = true ∧ httpErrorBuildsError = true ∧
     versionForced = true ∧ nilResultGuard = true ∧ idRestored = true := by decide
 
+/-- **Regenerated tie for "every reply is JSON".** `processRPC` builds no JSON by string formatting: its error replies are
+    `RPCErrorResponse` values carrying the request's own id (or the fixed id 1), which `encoding/json` can always
+    marshal — the model's replies are trees, so they are JSON by construction; this fact keeps the code in that shape. -/
+theorem replies_not_hand_built : noHandBuiltJsonInErrors = true := by decide
+
 /-- A response object as JSON-RPC 2.0 requires it: version 2.0 and exactly one of result / error. -/
 def WF (r : Resp) : Prop :=
   r.version = "2.0" ∧ ((r.result.isSome = true ∧ r.errorCode = none) ∨ (r.result = none ∧ r.errorCode.isSome = true))
